@@ -69,7 +69,7 @@ def main():
         fn, payloads, summ = shapes.dump_file(nk, 1, lf, it, spec='SpecCore')
         ck.add_tlc(summ, 'base shapes keys=%d sizes=(%d,%d)' % (nk, lf, it))
         dumps[(nk, lf, it)] = (fn, len(graph.Graph(payloads).states()))
-    fams = (['II', 'OO', 'LF'] if quick else embed.FAMILIES)
+    fams = (['II', 'OO', 'LF', 'fs'] if quick else embed.FAMILIES)
     plan = []
     for fam in fams:
         for impl in ('c', 'py'):
